@@ -256,4 +256,14 @@ example : runSpec .none [(.hs .clientHello false, true), (.hs .serverHello false
 
 example : (TlsState.clientHello).live := by simp [TlsState.live]
 
+/-! constructed values no parser produces are covered by `transition_eq_spec` like any other message: a session id that is
+    present but empty still asks for resumption (presence, not length, decides), and a ServerHello in the 1.2 structure that
+    merely carries the draft-18 version number is an ordinary ServerHello -/
+example : tlsStateTransition (β := Fin 256) .none
+    (.handshake (.clientHello ⟨0x0303, List.replicate 32 7, some [], [0x2f], [0], none⟩)) true = some .askResumeSession := by decide
+example : tlsStateTransition (β := Fin 256) .clientHello
+    (.handshake (.serverHello ⟨0x7f12, List.replicate 32 9, none, 0x2f, 0, none⟩)) false = some .serverHello := by decide
+example : tlsStateTransition (β := Fin 256) .clientHello
+    (.handshake (.serverHello ⟨0x7f12, List.replicate 32 9, none, 0x2f, 0, none⟩)) true = Option.none := by decide
+
 end Tls
